@@ -44,11 +44,11 @@ func (f FactSet) copy() FactSet {
 
 type HState struct {
 	Dead  bool
-	Paths []FactSet            // disjunction of conjunctions
-	Locks map[string]bool      // lock tokens that are held on every path
-	MayL  map[string]bool      // lock tokens that may be held
-	Must  map[string]bool      // events (callee keys, "defer:"+key) that happened on every path
-	May   map[string]bool      // events that may have happened
+	Paths []FactSet                 // disjunction of conjunctions
+	Locks map[string]bool           // lock tokens that are held on every path
+	MayL  map[string]bool           // lock tokens that may be held
+	Must  map[string]bool           // events (callee keys, "defer:"+key) that happened on every path
+	May   map[string]bool           // events that may have happened
 	Defs  map[types.Object]ast.Node // unique reaching definition (assignment RHS call) of a variable
 }
 
@@ -247,27 +247,28 @@ type InlFrame struct {
 
 // SiteDB holds the results for a set of functions.
 type SiteDB struct {
-	L        *Loaded
-	info     map[*types.Package]*types.Info
-	Calls    map[string][]*Site // callee key -> sites (every visit)
-	ByFunc   map[*FuncInfo][]*Site
-	Wrappers map[*types.Func]*Wrapper
-	wlocks   map[*types.Func][]wlock // lock tokens a wrapper holds around its callback
-	atomObjs map[string][]types.Object
-	weights  map[*FuncInfo]int
-	noInline bool
+	L         *Loaded
+	info      map[*types.Package]*types.Info
+	Calls     map[string][]*Site // callee key -> sites (every visit)
+	ByFunc    map[*FuncInfo][]*Site
+	Wrappers  map[*types.Func]*Wrapper
+	wlocks    map[*types.Func][]wlock // lock tokens a wrapper holds around its callback
+	atomObjs  map[string][]types.Object
+	weights   map[*FuncInfo]int
+	noInline  bool
+	exprFuncs bool // resolvers see through expression functions (local DBs for bounds reasoning)
 	// entry contexts (interprocedural)
-	EntryMust map[*types.Func]map[string]bool
-	EntryMay  map[*types.Func]map[string]bool
-	Exits     map[*FuncInfo][]*ExitRec
-	Virtual   map[*FuncInfo][]*Site    // callbacks that are declared functions (see Site.Virtual)
-	DeepExits map[*FuncInfo][]*ExitRec // exits of helpers analysed in place, keyed by the root function
-	Deep      map[*FuncInfo][]*Site // call sites inside callees analysed in place, keyed by the root function
-	DeepFields []*FieldAccess       // field accesses inside callees analysed in place (Root = the root function)
-	Fields    []*FieldAccess
-	Exprs     map[ast.Node]*HState // state before index / slice expressions
-	Blocking  []*Site // channel operations, select statements, go statements (Callee: "<-chan", "chan<-", "select", "go")
-	LockAcqs  []*LockAcq
+	EntryMust  map[*types.Func]map[string]bool
+	EntryMay   map[*types.Func]map[string]bool
+	Exits      map[*FuncInfo][]*ExitRec
+	Virtual    map[*FuncInfo][]*Site    // callbacks that are declared functions (see Site.Virtual)
+	DeepExits  map[*FuncInfo][]*ExitRec // exits of helpers analysed in place, keyed by the root function
+	Deep       map[*FuncInfo][]*Site    // call sites inside callees analysed in place, keyed by the root function
+	DeepFields []*FieldAccess           // field accesses inside callees analysed in place (Root = the root function)
+	Fields     []*FieldAccess
+	Exprs      map[ast.Node]*HState // state before index / slice expressions
+	Blocking   []*Site              // channel operations, select statements, go statements (Callee: "<-chan", "chan<-", "select", "go")
+	LockAcqs   []*LockAcq
 }
 
 // LockAcq is one explicit Lock/RLock call with the locks that may be held at that point.
@@ -353,6 +354,29 @@ type resolver struct {
 	frame     string
 	lo, hi    token.Pos
 	substObjs map[types.Object][]types.Object // parameter -> variables of the argument expression (caller frames)
+	// exprFuncs (opt-in): a call of a declared function whose whole body is "return <expr>"
+	// is rendered as that expression with the arguments substituted (b.has(n) becomes
+	// len(b.data) >= n, payloadSizeFor(x) becomes roundDown(x - largestFixedSize, 512)).
+	exprFuncs bool
+}
+
+// withExprFuncs returns a copy of the resolver that sees through expression functions.
+func (r *resolver) withExprFuncs() *resolver {
+	c := *r
+	c.exprFuncs = true
+	return &c
+}
+
+// exprFuncBody returns the returned expression of a function that consists of one return.
+func exprFuncBody(decl *ast.FuncDecl) ast.Expr {
+	if decl == nil || decl.Body == nil || len(decl.Body.List) != 1 {
+		return nil
+	}
+	ret, ok := decl.Body.List[0].(*ast.ReturnStmt)
+	if !ok || len(ret.Results) != 1 || !pureExpr(ret.Results[0]) {
+		return nil
+	}
+	return ret.Results[0]
 }
 
 func newResolver(l *Loaded, info *types.Info, fn ast.Node) *resolver {
@@ -543,6 +567,17 @@ func (r *resolver) strDepth(e ast.Expr, depth int) string {
 		}
 		return r.strDepth(v.X, depth) + "." + v.Sel.Name
 	case *ast.CallExpr:
+		if r.exprFuncs && depth < 4 {
+			if tf := r.l.FuncOf(callee(r.info, v)); tf != nil && tf.Pkg.TypesInfo == r.info {
+				if body := exprFuncBody(tf.Decl); body != nil {
+					base := newResolver(r.l, r.info, tf.Decl)
+					inst := r.instantiate(v, tf.Decl, base)
+					inst.exprFuncs = true
+					inst.frame = "" // a pure expression has no locals
+					return "(" + inst.strDepth(body, depth+1) + ")"
+				}
+			}
+		}
 		var args []string
 		for _, a := range v.Args {
 			args = append(args, r.strDepth(a, depth))
@@ -609,6 +644,18 @@ func atomOf(res *resolver, info *types.Info, parents func(ast.Node) ast.Node, co
 				if sw, ok := parents(blk).(*ast.SwitchStmt); ok && sw.Tag != nil {
 					return res.str(sw.Tag) + " == " + res.str(cond), pol
 				}
+			}
+		}
+	}
+	// A predicate that is an expression function is judged by its body.
+	if call, ok := cond.(*ast.CallExpr); ok && res.exprFuncs {
+		if tf := res.l.FuncOf(callee(info, call)); tf != nil && tf.Pkg.TypesInfo == info {
+			if body := exprFuncBody(tf.Decl); body != nil {
+				inst := res.instantiate(call, tf.Decl, newResolver(res.l, info, tf.Decl))
+				inst.exprFuncs = true
+				inst.frame = ""
+				k, p := atomOf(inst, info, nil, body)
+				return k, p == pol
 			}
 		}
 	}
@@ -802,6 +849,27 @@ func buildSiteDB(l *Loaded, pkgs ...string) *SiteDB {
 	return db
 }
 
+// buildLocalDB analyses the given functions each on its own: no interprocedural lock
+// contexts and no in-place analysis of callees, but with resolvers that see through expression
+// functions, so that b.has(n) and len(b.data) >= n give the same fact.  It serves the
+// bounds reasoning of C02, which is about comparisons within one function.
+func buildLocalDB(l *Loaded, funcs []*FuncInfo) *SiteDB {
+	db := &SiteDB{L: l, Calls: map[string][]*Site{}, ByFunc: map[*FuncInfo][]*Site{}, atomObjs: map[string][]types.Object{},
+		EntryMust: map[*types.Func]map[string]bool{}, EntryMay: map[*types.Func]map[string]bool{}, Exits: map[*FuncInfo][]*ExitRec{},
+		wlocks: map[*types.Func][]wlock{}, Deep: map[*FuncInfo][]*Site{}, DeepExits: map[*FuncInfo][]*ExitRec{}, Virtual: map[*FuncInfo][]*Site{},
+		Exprs: map[ast.Node]*HState{}, noInline: true, exprFuncs: true}
+	db.Wrappers = findWrappers(l, "p9")
+	for _, w := range db.Wrappers {
+		db.wlocks[w.Fn] = db.wrapperLocks(w)
+	}
+	for _, fi := range funcs {
+		if fi.Decl.Body != nil {
+			db.analyse(fi)
+		}
+	}
+	return db
+}
+
 type heldSets struct{ must, may map[string]bool }
 
 // maxInlineDepth bounds the in-place analysis of callees (helpers calling helpers).
@@ -812,6 +880,41 @@ var maxInlineDepth = func() int {
 	}
 	return 2
 }()
+
+// frameResolvers returns the function that yields the resolver of an analysis context: the
+// root's resolver, or - inside callees analysed in place - an instantiation that renders the
+// callee's parameters as the caller's argument expressions.
+func frameResolvers[S any](l *Loaded, info *types.Info, rootRes *resolver) func(fc *FlowCtx[S]) *resolver {
+	baseRes := map[*ast.FuncDecl]*resolver{}
+	type instKey struct {
+		call   *ast.CallExpr
+		parent *resolver
+	}
+	insts := map[instKey]*resolver{}
+	var resOf func(fc *FlowCtx[S]) *resolver
+	resOf = func(fc *FlowCtx[S]) *resolver {
+		for c := fc; c != nil; c = c.Parent {
+			if c.Inl == nil {
+				continue
+			}
+			p := resOf(c.Parent)
+			k := instKey{c.Call, p}
+			if r, ok := insts[k]; ok {
+				return r
+			}
+			b := baseRes[c.Inl]
+			if b == nil {
+				b = newResolver(l, info, c.Inl)
+				baseRes[c.Inl] = b
+			}
+			r := p.instantiate(c.Call, c.Inl, b)
+			insts[k] = r
+			return r
+		}
+		return rootRes
+	}
+	return resOf
+}
 
 // inlinePolicy decides which calls are analysed in place: statically resolved calls to
 // functions of the same package that have a body, are not callback wrappers (those are
@@ -960,35 +1063,10 @@ func (db *SiteDB) analyse(fi *FuncInfo) {
 		resCache[fi.Decl] = r
 		return r
 	}
-	rootRes := resFor(fi.Decl)
-	baseRes := map[*ast.FuncDecl]*resolver{}
-	type instKey struct {
-		call   *ast.CallExpr
-		parent *resolver
+	if db.exprFuncs {
+		resCache[fi.Decl] = newResolver(l, info, fi.Decl).withExprFuncs()
 	}
-	insts := map[instKey]*resolver{}
-	var resOf func(fc *FlowCtx[*HState]) *resolver
-	resOf = func(fc *FlowCtx[*HState]) *resolver {
-		for c := fc; c != nil; c = c.Parent {
-			if c.Inl == nil {
-				continue
-			}
-			p := resOf(c.Parent)
-			k := instKey{c.Call, p}
-			if r, ok := insts[k]; ok {
-				return r
-			}
-			b := baseRes[c.Inl]
-			if b == nil {
-				b = newResolver(l, info, c.Inl)
-				baseRes[c.Inl] = b
-			}
-			r := p.instantiate(c.Call, c.Inl, b)
-			insts[k] = r
-			return r
-		}
-		return rootRes
-	}
+	resOf := frameResolvers[*HState](l, info, resFor(fi.Decl))
 	inlChain := func(fc *FlowCtx[*HState]) []*InlFrame {
 		var out []*InlFrame
 		for c := fc; c != nil; c = c.Parent {
